@@ -29,6 +29,17 @@ if [ "$WHAT" = mutants ] || [ "$WHAT" = all ]; then
   for p in mutants/*.patch; do id=$(basename $p | cut -c1-3 | tr a-z A-Z); run $p $id; done
 fi
 if [ "$WHAT" = seeded ] || [ "$WHAT" = all ]; then
-  for d in seeded/*/; do id=$(basename $d | cut -c1-3); run $d/patch.diff $id; done
+  for d in seeded/*/; do
+    id=$(basename $d | cut -c1-3)
+    # the checks recorded as catching it (the property's own check unless the change was adjudicated as belonging to another property)
+    cs=$(python3 -c "
+import json,sys
+m=json.load(open('$d/meta.json'))
+c=m.get('caught_by_checks') or []
+print('-' if (not c and m.get('adjudication')) else ' '.join(c if '$id' not in c else ['$id']) or '$id')")
+    if [ "$cs" = "-" ]; then echo "ADJUDICATED (no check is expected to fire) $d"; continue; fi
+    run $d/patch.diff $cs
+  done
 fi
+if [ "$WHAT" = one ]; then shift; run "$@"; fi
 exit $fail
